@@ -146,6 +146,11 @@ class Report:
             print(f"VIOLATION property={self.pid} replay={path}")
             rc = EXIT_VIOLATION
         self._write_evidence(len(unknown), [f.key for f in matched])
+        undischarged = [o["name"] for o in self.obligations if not o["ok"]]
+        if undischarged and not self.findings:
+            # an obligation failed but no rule reported a construct: never a pass
+            print(f"ANALYSIS-ERROR property={self.pid}: obligation(s) not discharged and no finding names a construct: {undischarged[:5]}")
+            rc = EXIT_ANALYSIS
         n_an = sum(len(v) for v in self.analysed.values())
         n_ob = len(self.obligations)
         n_ok = sum(1 for o in self.obligations if o["ok"])
